@@ -22,7 +22,8 @@ EXPLANATION = (
     "reader requests only in-range bytes (dominance of the pos < size guard; Range bounds from min(pos + want, size) - 1), "
     "and a negative seek / unknown whence raise."
     ' Also: (R7) backends keep no mutable per-instance state; an error is permanent only by membership in PERMANENT_S3_ERROR_CODES; hand-written page loops follow NextContinuationToken; seek uses plain arithmetic.'
-    " Subclasses of the S3 backend / range reader are held to their parent's rules (R2/R3/R4/R7 iterate the class family).")
+    " Subclasses of the S3 backend / range reader are held to their parent's rules (R2/R3/R4/R7 iterate the class family)."
+    " (R8) every operation reaches its primitive on every normal path and both listings keep every entry; (R9) key mapping round trip by scenario evaluation (_get_s3_key vs the listing's prefix strip).")
 NOT_DECIDED = "operation-sequence equivalence of the two backends at run time; S3's own consistency"
 
 SB = "storage_backend"
